@@ -152,6 +152,37 @@ def scenario(sh: Shard, seed, idx, snap, ncmd):
                 units = refs["TempUnits"].decode(spa.struct.status_block)
                 t, st = (r.choice([15, 40, 26.5, r.randrange(270, 721) / 18.0]), 1 / 18.0) if units == "C" else (r.choice([59, 104, 98.6, (r.randrange(270, 721) + 320) / 10.0]), 0.1)
                 run_cmd(("heater.set_target_temperature", t, units), lambda t=t: heater.set_target_temperature(t), {"verb": "SET", "ref": refs["SetpointG"], "units": units, "check": lambda v, t=t, st=st: abs(v - t) < st + 1e-9, "readback": lambda: heater.target_temperature, "readback_ok": lambda v, t=t, st=st: abs(v - t) < st + 1e-9})
+            elif k == "unit" and r.random() < 0.35 and heater.is_present and "SetpointG" in refs:
+                # two set-point commands back to back, nobody waits for the echo of the first (a slider
+                # being dragged): the spa receives them in the order given and ends on the LAST one
+                units = refs["TempUnits"].decode(spa.struct.status_block)
+                lo_, hi_, st = (15, 40, 1 / 18.0) if units == "C" else (59, 104, 0.1)
+                t1, t2 = round(r.uniform(lo_, hi_), 1), round(r.uniform(lo_, hi_), 1)
+                if abs(t1 - t2) < 2 * st:
+                    t2 = lo_ if t1 > (lo_ + hi_) / 2 else hi_
+                rig.quiesce(settle=0.3)
+                n0 = len(rig.net.log)
+                ref = refs["SetpointG"]
+                heater.set_target_temperature(t1)
+                heater.set_target_temperature(t2)
+                rig.quiesce(settle=0.4)
+                sent = [x for x in rig.c2s(n0) if x["verb"] == "SPACK"]
+                sh.evaluations += 1
+                sh.count("threaded_back_to_back_setpoints")
+                wit = {"scenario": label, "command": ("set_target_temperature x2", t1, t2, units), "sent": [x["data"][x["data"].find(b"<DATAS>") + 7 : -16].hex() for x in sent]}
+                vals = []
+                for x in sent:
+                    c_ = x["data"][x["data"].find(b"<DATAS>") + 7 : x["data"].rfind(b"</DATAS>")]
+                    vals.append(int.from_bytes(c_[-2:], "big"))
+                conv = (lambda v: v / 18.0) if units == "C" else (lambda v: (v + 320) / 10.0)
+                if len(sent) != 2:
+                    sh.violation("C13:threaded:command-count:heater.set_target_temperature", f"two set-point commands back to back, {len(sent)} command datagrams sent", wit)
+                elif not (abs(conv(vals[0]) - t1) < st + 1e-9 and abs(conv(vals[1]) - t2) < st + 1e-9):
+                    sh.violation("C13:threaded:command-order", f"set points {t1} then {t2} were commanded back to back; the spa received {[round(conv(v), 2) for v in vals]} in that order", wit)
+                elif abs(ref.decode(rig.sim_block, units=units) - t2) > st + 1e-9 or abs(heater.target_temperature - t2) > st + 1e-9:
+                    sh.violation("C13:threaded:readback:heater.set_target_temperature", f"after set points {t1} then {t2} the spa holds {ref.decode(rig.sim_block, units=units):.2f} and the client reads {heater.target_temperature:.2f}", wit)
+                else:
+                    sh.count("threaded_commands_checked", 2)
             elif k == "unit" and "TempUnits" in refs:
                 u = r.choice(["C", "F", "°F", "f"])
                 want = "F" if u in ("°F", "f", "F") else "C"
@@ -186,3 +217,4 @@ def add(run, tier, seed):
     run.need(run.counters.get("threaded_idempotent_calls_checked", 0) > 10, "threaded facade: too few already-in-state calls")
     run.need(run.counters.get("threaded_commands_with_lost_echo_then_refresh", 0) >= 5, "threaded facade: no command whose echo was lost and repaired by a refresh")
     run.need(run.counters.get("threaded_long_connection_scenarios", 0) >= 1, "threaded facade: the long-lived connection scenario did not run")
+    run.need(run.counters.get("threaded_back_to_back_setpoints", 0) >= 10, "threaded facade: no two set-point commands back to back")
